@@ -8,6 +8,7 @@ sampled: each box is an enclosure, the union of boxes is the domain.  A failed c
 bound is a VIOLATION (the point is reported); a failure without such a point is UNDECIDED and trips the floor.
 Trusted: binary64 libm acos/sin/cos/sqrt of the analysing Python are within 1 ulp (padded to 4e-16 absolute)."""
 import math
+import re
 import terms as tm
 import interval
 from interval import _dn, _up, Undetermined
@@ -63,13 +64,25 @@ CERTS = [
 ]
 
 
+SIN_RE = re.compile(r'(^|::)sse2::m128_sin\w*$')
+
+
+def sin_helpers(F):
+    """names of the SSE2 backend's own sine helper(s): any non-generic fn of module sse2 whose name starts with m128_sin (so a rename that
+    keeps the prefix is followed; the certificate below, not the name, is what establishes that the function is a sine)"""
+    return sorted(n for n, it in F.items.items() if SIN_RE.search(n) and not it.get('generic') and F.has_body(it['key']))
+
+
 def run_certs(ctx, cfg, F, H, which):
-    """which: iterable of item-name suffixes to certify in this configuration.  -> number proved"""
+    """which: iterable of item names / name suffixes to certify in this configuration.  -> number proved"""
     n_ok = 0
     for (suffix, lane, rv, rd, dom, bps, tol, what) in CERTS:
-        if suffix not in which:
+        if suffix == 'sse2::m128_sin':
+            its = [(n, F.items[n]) for n in sin_helpers(F) if n in which or suffix in which]
+        elif suffix not in which:
             continue
-        its = [(n, it) for n, it in F.items.items() if n.endswith(suffix) and not it.get('generic')]
+        else:
+            its = [(n, it) for n, it in F.items.items() if n.endswith(suffix) and not it.get('generic')]
         if not its:
             continue
         name, it = its[0]
